@@ -199,8 +199,10 @@ B1 = '''fn work(a: int, b: int, s: string, t: bool) -> int {
     return <<return:int|(+ x y)>>
 }
 shadow work {
-    let r: int = (work 1 2 "q" true)
-    assert (> r 0)
+    let r: int = <<let@shadow:int|(work 1 2 "q" true)>>
+    let sb: bool = <<let@shadow:bool|(> r 0)>>
+    (println <<arg-println@shadow:bool|sb>>)
+    assert sb
 }
 fn main() -> int {
     (println "%MARKER%")
@@ -271,10 +273,10 @@ B2 = '''fn main() -> int {
     (println (+ <<operand@println:int|g1>> 10))
     (println (not <<operand@println:bool|g2>>))
     let aa: array<int> = [<<elem@let:int|g1>>, 2]
-    let as: array<string> = ["a", <<elem@let:string|s>>]
+    let sa: array<string> = ["a", <<elem@let:string|s>>]
     let p2: P = P { x: 1, y: <<field@let:int|(+ g1 1)>> }
     (println (at aa 0))
-    (println (at as 1))
+    (println (at sa 1))
     (println p2.y)
     (println g3)
     for k in (range 0 2) {
@@ -356,7 +358,11 @@ fn label(n: int, flag: bool) -> string {
     }
     return <<return:string|(+ out "-")>>
 }
-shadow label { assert (== (label 1 false) "L-") }
+shadow label {
+    let l: string = <<let@shadow:string|(label 1 false)>>
+    (println <<arg-println@shadow:string|l>>)
+    assert (== l "L-")
+}
 fn main() -> int {
     (println "%MARKER%")
     (println (judge 1 "hello"))
@@ -376,11 +382,9 @@ B4 = '''fn fact(n: int) -> int {
 @ret:after-if@    return (* n (fact (- n 1)))
 }
 shadow fact {
-    let t: int = <<let:int|(fact 4)>>
+    let t: int = <<let@shadow:int|(fact 4)>>
     assert (== t 24)
-    (println <<arg-println:int|t>>)
-    let u: int = (i2i <<arg-user@let:int|t>>)
-    assert (> u <<operand@cond:int|24>>)
+    (println <<arg-println@shadow:int|t>>)
 }
 fn sign(v: int) -> int {
     if (> v 0) {
@@ -432,8 +436,9 @@ fn is_small(n: int) -> bool {
 }
 shadow is_small {
     assert (is_small 3)
-    let v: bool = <<let:bool|(is_small 30)>>
+    let v: bool = <<let@shadow:bool|(is_small 30)>>
     assert (not v)
+    (println <<arg-println@shadow:bool|v>>)
 }
 fn mkp(a: int) -> P {
     let b: int = <<let:int|(* a 2)>>
@@ -524,7 +529,9 @@ B5 = '''fn dist(p: P, q: P, c: Color) -> int {
 shadow dist {
     let a: P = P { x: 1, y: 2 }
     let b: P = P { x: 4, y: 6 }
-    assert (> (dist a b Color.Red) 0)
+    let dd: int = <<let@shadow:int|(dist a b Color.Red)>>
+    (println <<arg-println@shadow:int|dd>>)
+    assert (> dd 0)
 }
 fn origin(k: int) -> P {
     return <<return:P|P { x: k, y: k }>>
@@ -562,3 +569,967 @@ shadow main { assert (== (main) 0) }
 '''
 
 HAND_BASES = [("b1", B1), ("b2", B2), ("b3", B3), ("b4", B4), ("b5", B5)]
+
+
+# =========================================================================================================
+#  template machinery
+# =========================================================================================================
+import os
+import re
+import random
+
+HOLE_RE = re.compile(r"<<([a-z@-]+):([A-Za-z]+)\|(.*?)>>")
+RET_RE = re.compile(r"^@ret:([a-z-]+)@")
+MARK_RE = re.compile(r"^(\s*)@@ ([a-z-]+)(.*)$")
+
+
+class Hole:
+    def __init__(self, idx, line, ctx, T, default):
+        self.idx, self.line, self.ctx, self.T, self.default = idx, line, ctx, T, default
+
+
+class StmtPoint:
+    def __init__(self, idx, line, indent, blockctx, ret, imm, par):
+        self.idx, self.line, self.indent, self.blockctx, self.ret, self.imm, self.par = idx, line, indent, blockctx, ret, imm, par
+
+
+class RetLine:
+    def __init__(self, idx, line, shape):
+        self.idx, self.line, self.shape = idx, line, shape
+
+
+def _pairs(s):
+    return [tuple(x.split(":")) for x in s.split(",") if x]
+
+
+class Base:
+    """a parsed template; render(mutation) gives program text.
+    mutation: None | ('hole', idx, pre_lines, expr) | ('stmt', idx, lines) | ('ret', idx)"""
+
+    def __init__(self, name, body, prelude=PRELUDE, kind="hand", extra_files=None):
+        self.name = name
+        self.kind = kind
+        self.extra_files = extra_files or {}
+        text = body.replace("%MARKER%", MARKER)
+        if prelude:
+            # imports (generated multi-file programs) stay in front of the prelude
+            ls = text.split("\n")
+            k = 0
+            while k < len(ls) and ls[k].startswith("from "):
+                k += 1
+            text = "\n".join(ls[:k] + [prelude.rstrip("\n")] + ls[k:])
+        self.lines = text.split("\n")
+        self.holes, self.points, self.rets = [], [], []
+        for li, l in enumerate(self.lines):
+            m = MARK_RE.match(l)
+            if m:
+                attrs = dict(a.split("=", 1) for a in m.group(3).split())
+                self.points.append(StmtPoint(len(self.points), li, m.group(1), m.group(2), attrs.get("ret"),
+                                             _pairs(attrs.get("imm", "")), _pairs(attrs.get("par", ""))))
+                continue
+            m = RET_RE.match(l)
+            if m:
+                self.rets.append(RetLine(len(self.rets), li, m.group(1)))
+            for hm in HOLE_RE.finditer(l):
+                self.holes.append(Hole(len(self.holes), li, hm.group(1), hm.group(2), hm.group(3)))
+
+    def render(self, mut=None):
+        out = []
+        hidx = 0
+        for li, l in enumerate(self.lines):
+            m = MARK_RE.match(l)
+            if m:
+                if mut and mut[0] == "stmt" and self.points[mut[1]].line == li:
+                    out.extend(m.group(1) + x for x in mut[2])
+                continue
+            m = RET_RE.match(l)
+            if m:
+                if mut and mut[0] == "ret" and self.rets[mut[1]].line == li:
+                    continue
+                l = l[m.end():]
+            if "<<" in l:
+                pre = []
+
+                def sub(hm):
+                    nonlocal hidx
+                    h = self.holes[hidx]
+                    hidx += 1
+                    if mut and mut[0] == "hole" and mut[1] == h.idx:
+                        pre.extend(mut[2])
+                        return mut[3]
+                    return hm.group(3)
+                nl = HOLE_RE.sub(sub, l)
+                ind = l[:len(l) - len(l.lstrip())]
+                out.extend(ind + x for x in pre)
+                out.append(nl)
+            else:
+                out.append(l)
+        return "\n".join(out)
+
+    def files(self, mut=None):
+        d = dict(self.extra_files)
+        d["p.nano"] = self.render(mut)
+        return d
+
+
+# =========================================================================================================
+#  rule catalogue.  Every entry is a CERTAIN violation of the named rule wherever it is placed:
+#  the offending expression never depends on the surroundings except through D (the slot's own well-typed
+#  default expression, of the slot's type) and names declared by the prelude / by its own `pre` statements.
+# =========================================================================================================
+SIMPLE = ("int", "bool", "string", "float")
+LIT = {"int": ["7", "0", "42"], "bool": ["true", "false"], "string": ['"zq"', '""'], "float": ["2.5"],
+       "P": ["P { x: 0, y: 0 }"], "Color": ["Color.Red"], "Sh": ["Sh.Sq { s: 1 }"]}
+# literals / well-typed expressions whose type certainly differs from the slot's (no int<->enum, see notes)
+WRONG = {
+    "int": ['"zq"', "true", '"7"', "2.5", "(i2s 1)", "(i2b 1)", "P { x: 1, y: 2 }"],
+    "bool": ["7", '"zq"', "0", '"true"', "(i2i 1)", "(i2s 1)"],
+    "string": ["7", "true", "0", "2.5", "(i2i 1)", "(i2b 1)"],
+    "float": ['"zq"', "true", "3", "(i2s 1)"],
+    "P": ["7", '"zq"', "true"],
+    "Sh": ["7", "true", '"zq"'],
+    "Color": ['"zq"', "true", "2.5"],
+}
+SUF = {"int": "i", "bool": "b", "string": "s", "float": "f", "P": "p"}
+
+
+def _d(D, T):
+    return D if D is not None else LIT[T][0]
+
+
+def r_mismatch(T, D):
+    return [("wrong:" + w, [], w) for w in WRONG.get(T, [])]
+
+
+def r_operand_arith(T, D):
+    out = []
+    if T == "int":
+        for op in ("-", "*", "/", "%", "+"):
+            out.append(("%s int,string" % op, [], "(%s %s \"zq\")" % (op, _d(D, T))))
+            out.append(("%s bool,int" % op, [], "(%s true %s)" % (op, _d(D, T))))
+        out.append(("- string,int", [], '(- "zq" %s)' % _d(D, T)))
+    elif T == "float":
+        out.append(("* float,string", [], '(* %s "zq")' % _d(D, T)))
+        out.append(("- bool,float", [], "(- true %s)" % _d(D, T)))
+        out.append(("+ float,int", [], "(+ %s 1)" % _d(D, T)))
+    elif T == "string":
+        out.append(("+ string,int", [], "(+ %s 7)" % _d(D, T)))
+        out.append(("+ bool,string", [], "(+ true %s)" % _d(D, T)))
+    return out
+
+
+def r_operand_ordering(T, D):
+    if T != "bool":
+        return []
+    return [("< int,string", [], '(< 3 "zq")'), (">= string,int", [], '(>= "zq" 3)'),
+            ("> int,bool", [], "(> 3 true)"), ("<= bool,int", [], "(<= false 3)")]
+
+
+def r_operand_equality(T, D):
+    if T != "bool":
+        return []
+    return [("== int,string", [], '(== 3 "zq")'), ("!= string,int", [], '(!= "zq" 3)'),
+            ("== bool,int", [], "(== true 3)"), ("!= int,bool", [], "(!= 3 false)")]
+
+
+def r_operand_logic(T, D):
+    if T != "bool":
+        return []
+    d = _d(D, T)
+    return [("and bool,int", [], "(and %s 7)" % d), ("or string,bool", [], '(or "zq" %s)' % d),
+            ("and int,bool", [], "(and 7 %s)" % d), ("or bool,string", [], '(or %s "zq")' % d)]
+
+
+def r_operand_not(T, D):
+    if T != "bool":
+        return []
+    return [("not int", [], "(not 7)"), ("not string", [], '(not "zq")')]
+
+
+def r_operand_neg(T, D):
+    if T != "int":
+        return []
+    return [("neg string", [], '(- "zq")'), ("neg bool", [], "(- true)")]
+
+
+def r_argtype_user(T, D):
+    t = {
+        "int": ['(i2i "zq")', "(i2i true)", "(s2i 7)", "(b2i 7)", '(ii2i %s "zq")' % _d(D, "int"),
+                "(ii2i true %s)" % _d(D, "int"), "(p2i 7)", '(c2i "zq")'],
+        "bool": ['(i2b "zq")', "(s2b 7)", "(b2b 7)", '(ib2b "zq" %s)' % _d(D, "bool"), "(ib2b 1 7)"],
+        "string": ['(i2s "zq")', "(s2s 7)", '(b2s "zq")', '(is2s "zq" %s)' % _d(D, "string"), "(is2s 1 7)"],
+        "float": ['(i2f "zq")', "(i2f true)"],
+        "P": ['(i2p "zq")', "(i2p true)"],
+        "void": ['(vd "zq")', "(vd true)"],
+    }
+    return [("call " + e, [], e) for e in t.get(T, [])]
+
+
+def r_argtype_builtin(T, D):
+    t = {
+        "int": ['(abs "zq")', "(abs true)", "(str_length 7)", '(max 1 "zq")', '(min "zq" 2)', "(string_to_int 7)"],
+        "bool": ['(str_equals "a" 7)', '(str_contains 7 "a")'],
+        "string": ['(int_to_string "zq")', '(str_concat "a" 7)', '(str_concat 7 "a")', "(str_substring 7 0 1)"],
+    }
+    return [("call " + e, [], e) for e in t.get(T, [])]
+
+
+def r_arity_user(T, D):
+    t = {
+        "int": ["(i2i)", "(i2i 1 2)", "(ii2i 1)", "(ii2i 1 2 3)"],
+        "bool": ["(i2b)", "(i2b 1 2)", "(ib2b 1)"],
+        "string": ["(i2s)", "(i2s 1 2)", '(is2s 1 "a" "b")'],
+        "float": ["(i2f)", "(i2f 1 2)"],
+        "P": ["(i2p)", "(i2p 1 2)"],
+        "void": ["(vd)", "(vd 1 2)"],
+    }
+    return [("call " + e, [], e) for e in t.get(T, [])]
+
+
+def r_arity_builtin(T, D):
+    t = {
+        "int": ["(abs)", "(abs 1 2)", "(str_length)", '(str_length "a" "b")', "(max 1)"],
+        "bool": ['(str_equals "a")', '(str_contains "a" "b" "c")'],
+        "string": ["(int_to_string)", "(int_to_string 1 2)", '(str_concat "a")'],
+    }
+    return [("call " + e, [], e) for e in t.get(T, [])]
+
+
+def r_unknown_var(T, D):
+    return [("name zz_nosuch", [], "zz_nosuch"), ("name nosuch9", [], "nosuch9")]
+
+
+def r_unknown_fn(T, D):
+    return [("call " + e, [], e) for e in ("(zz_nosuchfn 1)", "(zz_nosuchfn)", '(zz_nosuchfn "a" 2)')]
+
+
+def r_scope_block(T, D):
+    if T not in LIT or T in ("Color", "Sh"):
+        return []
+    v = LIT[T][0]
+    out = [("after if-block", ["if true {", "    let zblk: %s = %s" % (T, v), "}"], "zblk"),
+           ("after while-block", ["let mut zcnt: int = 0", "while (< zcnt 1) {", "    let zblk: %s = %s" % (T, v),
+                                  "    set zcnt (+ zcnt 1)", "}"], "zblk"),
+           ("after else-block", ["if false {", "    set gmut 1", "} else {", "    let zblk: %s = %s" % (T, v), "}"], "zblk")]
+    if T == "int":
+        out.append(("for variable after loop", ["for zblk in (range 0 2) {", "    set gmut (+ gmut zblk)", "}"], "zblk"))
+    return out
+
+
+def r_scope_otherfn(T, D):
+    if T not in ("int", "bool", "string"):
+        return []
+    s = SUF[T]
+    return [("local of other()", [], "oloc_" + s), ("parameter of other()", [], "opar_" + s)]
+
+
+def r_undefined_field(T, D):
+    pre = ["let zp: P = P { x: 1, y: 2 }"]
+    return [("field zp.nosuch", pre, "zp.nosuch"), ("field zp.z", pre, "zp.z")]
+
+
+def r_undefined_variant(T, D):
+    if T == "Color":
+        return [("enum variant", [], "Color.Nosuch"), ("enum variant (case)", [], "Color.red")]
+    if T == "Sh":
+        return [("union variant", [], "Sh.Nosuch { r: 1 }"), ("union variant Tri", [], "Sh.Tri { s: 2 }")]
+    return []
+
+
+def r_void_use(T, D):
+    return [("call (vd 1)", [], "(vd 1)")]
+
+
+def r_consumed_use(T, D):
+    pres = [["let zr: Res = (mk 3)", "(closer zr)"], ["let zr: Res = Res { fd: 3 }", "(closer zr)"]]
+    out = []
+    if T == "int":
+        for i, p in enumerate(pres):
+            out.append(("pass consumed #%d" % i, p, "(peek zr)"))
+            out.append(("read field of consumed #%d" % i, p, "zr.fd"))
+    elif T == "void":
+        for i, p in enumerate(pres):
+            out.append(("consume twice #%d" % i, p, "(closer zr)"))
+    return out
+
+
+def r_extern_nounsafe(T, D):
+    if T != "int":
+        return []
+    return [("call (labs 3)", [], "(labs 3)"), ("call (labs D)", [], "(labs %s)" % _d(D, "int"))]
+
+
+EXPR_RULES = [
+    ("type-mismatch", r_mismatch), ("operand-arith", r_operand_arith), ("operand-ordering", r_operand_ordering),
+    ("operand-equality", r_operand_equality), ("operand-logic", r_operand_logic), ("operand-not", r_operand_not),
+    ("operand-neg", r_operand_neg), ("argtype-user", r_argtype_user), ("argtype-builtin", r_argtype_builtin),
+    ("arity-user", r_arity_user), ("arity-builtin", r_arity_builtin), ("unknown-var", r_unknown_var),
+    ("unknown-fn", r_unknown_fn), ("scope-after-block", r_scope_block), ("scope-other-function", r_scope_otherfn),
+    ("undefined-field", r_undefined_field), ("undefined-variant", r_undefined_variant), ("void-result-use", r_void_use),
+    ("consumed-resource-use", r_consumed_use), ("extern-outside-unsafe", r_extern_nounsafe),
+]
+# rules whose offending expression has no type of its own (fits a slot of any type)
+ANYTYPE_RULES = {"unknown-var", "unknown-fn", "undefined-field", "void-result-use"}
+EXPR_CONTEXTS = ["let", "set", "return", "cond-if", "cond-while", "arg-user@let", "arg-user@stmt", "arg-user@println",
+                 "arg-builtin@let", "arg-builtin@println", "arg-println", "operand@let", "operand@cond",
+                 "operand@println", "elem@let", "field@let", "expr-stmt", "let@shadow", "arg-println@shadow"]
+ANYOK_CONTEXTS = {"arg-println", "expr-stmt", "arg-println@shadow"}        # the slot itself accepts a value of any type
+# call-shaped entries only in expr-stmt (an operator expression / a bare name as a statement is a different error)
+STMT_CONTEXTS = ["fn-body", "if-then", "if-else", "while-body", "for-body", "nested"]
+RET_SHAPES = ["only", "after-if", "then-branch", "else-branch", "nested-else", "after-while"]
+
+
+def expr_variants(rule, fn, ctx, T, D):
+    """variants of `rule` that may be put into a slot (ctx, T, default D)"""
+    if ctx == "expr-stmt":
+        if rule in ("type-mismatch", "void-result-use"):
+            return []          # nothing is expected of an expression statement; a void call as a statement is legal
+        out = []
+        for T2 in ("int", "bool", "string", "float", "P", "void"):
+            for v in fn(T2, None):
+                e = v[2]
+                if e.startswith("(") and re.match(r"\([A-Za-z_]", e) and not re.match(r"\((and|or|not)\b", e):
+                    out.append(v)
+            if rule in ANYTYPE_RULES:
+                break
+        return out
+    if rule == "type-mismatch" and ctx in ANYOK_CONTEXTS:
+        return []
+    if rule in ANYTYPE_RULES:
+        return fn(T, D)
+    if ctx in ANYOK_CONTEXTS:
+        out = list(fn(T, D))
+        for T2 in SIMPLE:
+            if T2 != T:
+                out += fn(T2, None)
+        return out
+    return fn(T, D)
+
+
+def stmt_variants(rule, pt):
+    """statement-level violations that may be inserted at a statement point"""
+    out = []
+    if rule == "set-immutable-local":
+        for n, T in pt.imm:
+            for v in LIT.get(T, [])[:2]:
+                out.append(("set %s:%s" % (n, T), ["set %s %s" % (n, v)]))
+    elif rule == "set-parameter":
+        for n, T in pt.par:
+            for v in LIT.get(T, [])[:2]:
+                out.append(("set %s:%s" % (n, T), ["set %s %s" % (n, v)]))
+    elif rule == "set-immutable-global":
+        out.append(("set gimm", ["set gimm 5"]))
+        out.append(("set gimm expr", ["set gimm (+ gimm 1)"]))
+    elif rule == "set-unknown-var":
+        out.append(("set zz_nosuch", ["set zz_nosuch 5"]))
+    elif rule == "return-type":
+        if pt.ret == "void":
+            out.append(("return 5 in void fn", ["return 5"]))
+            out.append(('return "zq" in void fn', ['return "zq"']))
+        elif pt.ret in WRONG:
+            for w in WRONG[pt.ret][:4]:
+                out.append(("return %s in %s fn" % (w, pt.ret), ["return " + w]))
+    elif rule == "match-undefined-variant":
+        out.append(("extra arm Nosuch", ["let zs: Sh = Sh.Circle { r: 1 }", "match zs {", "    Circle(zc) => { set gmut zc.r }",
+                                         "    Sq(zq) => { set gmut zq.s }", "    Nosuch(zn) => { set gmut 0 }", "}"]))
+        out.append(("arm Tri instead of Sq", ["let zs: Sh = Sh.Circle { r: 1 }", "match zs {", "    Circle(zc) => { set gmut zc.r }",
+                                              "    Tri(zq) => { set gmut 0 }", "}"]))
+    return out
+
+
+STMT_RULES = ["set-immutable-local", "set-parameter", "set-immutable-global", "set-unknown-var", "return-type",
+              "match-undefined-variant"]
+# positive controls for entries that bring their own statements: these must be ACCEPTED
+STMT_CONTROLS = [("match-all-variants", ["let zs: Sh = Sh.Circle { r: 1 }", "match zs {", "    Circle(zc) => { set gmut zc.r }",
+                                         "    Sq(zq) => { set gmut zq.s }", "}"]),
+                 ("set-mutable-global", ["set gmut 5"]),
+                 ("resource-create-consume", ["let zr: Res = (mk 3)", "(closer zr)"]),
+                 ("resource-literal-consume", ["let zr: Res = Res { fd: 3 }", "(closer zr)"]),
+                 ("extern-in-unsafe", ["let mut ze: int = 0", "unsafe {", "    set ze (labs 3)", "}"])]
+
+
+# =========================================================================================================
+#  generated bases: missing-return shapes (b6) and nlv.gen programs with holes located in their AST
+# =========================================================================================================
+RT = {"int": ("1", "2", "(+ a 3)"), "bool": ("true", "false", "(> a 3)"), "string": ('"p"', '"q"', "(i2s a)"),
+      "float": ("1.5", "2.5", "(i2f a)"), "P": ("P { x: 1, y: 1 }", "P { x: 2, y: 2 }", "(i2p a)"),
+      "Color": ("Color.Red", "Color.Green", "Color.Blue")}
+RET_SHAPES = ["only", "after-if", "then-branch", "else-branch", "nested-else", "after-while", "after-for"]
+
+
+def returns_base(extra_prefix):
+    """one function per (shape, return type); the marked `return` is the only one on its path"""
+    fns, calls = [], []
+    for shape in RET_SHAPES:
+        for T, (v1, v2, v3) in RT.items():
+            name = "r_%s_%s%s" % (shape.replace("-", "_"), T.lower(), "x" if extra_prefix else "")
+            b = ["fn %s(a: int) -> %s {" % (name, T)]
+            if extra_prefix:
+                b += ["    let w: int = (* a 2)", "    if (> w 100) {", "        set gmut w", "    }"]
+            tag = "@ret:%s@" % shape
+            if shape == "only":
+                b += ["    let z: int = (+ a 1)", "    set gmut z", tag + "    return " + v3]
+            elif shape == "after-if":
+                b += ["    if (> a 0) {", "        return " + v1, "    }", tag + "    return " + v2]
+            elif shape == "then-branch":
+                b += ["    if (> a 0) {", "        set gmut a", tag + "        return " + v1, "    } else {", "        return " + v2, "    }"]
+            elif shape == "else-branch":
+                b += ["    if (> a 0) {", "        return " + v1, "    } else {", "        set gmut a", tag + "        return " + v2, "    }"]
+            elif shape == "nested-else":
+                b += ["    if (> a 0) {", "        return " + v1, "    } else {", "        if (< a 0) {", "            return " + v2,
+                      "        } else {", "            set gmut 0", tag + "            return " + v3, "        }", "    }"]
+            elif shape == "after-while":
+                b += ["    let mut i: int = 0", "    while (< i a) {", "        if (== i 3) {", "            return " + v1, "        }",
+                      "        set i (+ i 1)", "    }", tag + "    return " + v2]
+            elif shape == "after-for":
+                b += ["    for i in (range 0 a) {", "        if (== i 3) {", "            return " + v1, "        }", "    }",
+                      tag + "    return " + v2]
+            b += ["}", "shadow %s { assert true }" % name]
+            fns.append("\n".join(b))
+            call = "(%s 1)" % name
+            if T == "P":
+                call = "(p2i %s)" % call
+            elif T == "Color":
+                call = "(c2i %s)" % call
+            calls.append("    (println %s)" % call)
+    main = ["fn main() -> int {", '    (println "%MARKER%")'] + calls + ["    return 0", "}", "shadow main { assert (== (main) 0) }"]
+    return "\n".join(fns + main) + "\n"
+
+
+def _simple_type(e, env, sigs):
+    k = e[0]
+    if k == "int":
+        return "int"
+    if k == "bool":
+        return "bool"
+    if k == "str":
+        return "string"
+    if k == "float":
+        return "float"
+    if k == "var":
+        return env.get(e[1])
+    if k == "bin":
+        if e[1] in ("==", "!=", "<", "<=", ">", ">=", "and", "or"):
+            return "bool"
+        return _simple_type(e[2], env, sigs)
+    if k == "un":
+        return "bool" if e[1] == "not" else _simple_type(e[2], env, sigs)
+    if k == "call":
+        t = sigs.get(e[1])
+        return t if isinstance(t, str) else None
+    return None
+
+
+def gen_template(prog):
+    """nlv.gen Program -> Base with holes at let / set / return / if-condition / println-argument positions of the
+    functions of its main module (static types come from the generator's own declarations)."""
+    from ..gen import ast as A
+    pr = A.Printer()
+    sigs = {f.name: f.ret for f in prog.all_funcs()}
+    sigs.update({"int_to_string": "string", "str_length": "int", "abs": "int", "str_concat": "string", "string_to_int": "int"})
+    genv = {n: t for (n, t, mut, e) in prog.main.globals}
+    count = [0]
+    loop = [0]
+
+    def wrap(ctx, T, e):
+        txt = pr.e(e)
+        if "<<" in txt or ">>" in txt or "\n" in txt:
+            return e
+        count[0] += 1
+        return ("var", "<<%s:%s|%s>>" % (ctx, T, txt))
+
+    def tx_if(s, fn, env, nowrap):
+        c = s[1] if nowrap else wrap("cond-if", "bool", s[1])
+        then = tx_block(s[2], fn, env)
+        els = s[3]
+        if els is not None:
+            if len(els) == 1 and els[0][0] == "if" and els[0][-1] != "noelif":
+                els = [tx_if(els[0], fn, env, True)]      # printed as `} else if c {`: nothing can be inserted in front
+            else:
+                els = tx_block(els, fn, env)
+        return ("if", c, then, els) + tuple(s[4:])
+
+    def tx_block(stmts, fn, env):
+        out = []
+        for s in stmts:
+            k = s[0]
+            if k == "let":
+                if isinstance(s[2], str):
+                    env[s[1]] = s[2]
+                # loop counters (c<N>) stay intact: a mutant that is accepted must still terminate
+                if s[2] in SIMPLE and not re.match(r"c\d+$", s[1]):
+                    s = ("let", s[1], s[2], s[3], wrap("let", s[2], s[4]))
+            elif k == "set":
+                T = env.get(s[1])
+                if T in SIMPLE and not loop[0] and not re.match(r"c\d+$", s[1]):
+                    s = ("set", s[1], wrap("set", T, s[2]))
+            elif k == "return":
+                if s[1] is not None and fn.ret in SIMPLE:
+                    s = ("return", wrap("return", fn.ret, s[1]))
+            elif k == "if":
+                s = tx_if(s, fn, env, False)
+            elif k == "while":
+                loop[0] += 1
+                s = ("while", s[1], tx_block(s[2], fn, env))
+                loop[0] -= 1
+            elif k == "for":
+                env[s[1]] = "int"
+                s = ("for", s[1], s[2], s[3], tx_block(s[4], fn, env))
+            elif k == "match":
+                s = ("match", s[1], [(v, b, tx_block(body, fn, env)) for v, b, body in s[2]])
+            elif k == "print" and s[2]:
+                T = _simple_type(s[1], env, sigs)
+                if T in SIMPLE:
+                    s = ("print", wrap("arg-println", T, s[1]), s[2])
+            out.append(s)
+        return out
+
+    saved = []
+    try:
+        for fn in prog.main.funcs:
+            saved.append((fn, fn.body))
+            env = dict(genv)
+            env.update({n: t for n, t in fn.params if isinstance(t, str)})
+            body = tx_block(fn.body, fn, env)
+            if fn.name == "main":
+                body = [("print", ("str", MARKER), True)] + body
+            fn.body = body
+        text = prog.main.text(pr)
+    finally:
+        for fn, body in saved:
+            fn.body = body
+    extra = {m.name + ".nano": m.text(pr) for m in prog.modules}
+    return text, extra, count[0]
+
+
+# =========================================================================================================
+#  running one program on the three tools and classifying what was observed
+# =========================================================================================================
+from .. import build
+from ..core import Inconclusive
+from ..run import run as sh, pmap, Scratch
+
+LEVEL = "fault_enumeration"
+TOOLS = ["nanoc", "virt-run", "virt-emit"]
+CMD = {"nanoc": "nanoc p.nano -o t.bin", "virt-run": "nano_virt p.nano --run", "virt-emit": "nano_virt p.nano --emit-nvm -o t.nvm"}
+ARTIFACT = {"nanoc": "t.bin", "virt-run": None, "virt-emit": "t.nvm"}
+GOOD = {"rejected", "rejected-late-by-cc", "diagnosed-rejected-by-cc"}
+BAD = {"diagnosed-but-built", "silently-built", "rejected-without-diagnostic", "crashed-without-diagnostic"}
+LETTER = {"rejected": "R", "rejected-late-by-cc": "C", "diagnosed-rejected-by-cc": "c", "diagnosed-but-built": "D",
+          "silently-built": "S", "rejected-without-diagnostic": "N", "crashed-without-diagnostic": "X",
+          "crashed-after-diagnostic": "x", "inconclusive": "?"}
+
+# lines that come from the C compiler, not from the tool itself
+GCC_LINE = re.compile(r"^(\S+\.[ch]:\d+|\S+\.[ch]: |cc1:|In file included|\s+from |\s*\d*\s*\||\s*\^|collect2:|/usr/bin/ld|gcc:|\S*fastcc)")
+
+
+class Obs:
+    __slots__ = ("tool", "cls", "stage", "rc", "sig", "artifact", "marker", "diag", "ccdiag", "out", "err")
+
+
+def own_diag_lines(text):
+    """diagnostic lines printed by the tool itself (warnings, C compiler output and the bare 'C compilation failed' removed)"""
+    out = []
+    for l in text.splitlines():
+        s = l.strip()
+        if not s or s.startswith("Warning") or s.startswith("[ffi_loader]"):
+            continue
+        if GCC_LINE.match(l) or s == "C compilation failed":
+            continue
+        if not re.search(r"[A-Za-z]{3}", s):
+            continue
+        out.append(s)
+    return out
+
+
+def stage_of(tool, text):
+    if tool == "nanoc":
+        for pat, st in (("Lexing failed", "lex"), ("Parsing failed", "parse"), ("Module loading failed", "import"),
+                        ("Type checking failed", "typecheck"), ("Shadow tests failed", "shadow"), ("Transpilation failed", "transpile"),
+                        ("C compilation failed", "cc")):
+            if pat in text:
+                return st
+        return "other"
+    for pat, st in (("lexer failed", "lex"), ("parser failed", "parse"), ("module loading failed", "import"),
+                    ("type check failed", "typecheck"), ("codegen failed", "codegen"), ("verification failed", "verify"),
+                    ("runtime error", "runtime")):
+        if pat in text:
+            return st
+    return "other"
+
+
+def run_tool(fl, tool, d):
+    art = ARTIFACT[tool]
+    if art:
+        try:
+            os.unlink(os.path.join(d, art))
+        except OSError:
+            pass
+    for attempt in (0, 1):
+        if tool == "nanoc":
+            r = sh([fl.nanoc, "p.nano", "-o", "t.bin"], cwd=d, env=fl.fastcc_env({"TMPDIR": d}), cpu=40, wall=600)
+        elif tool == "virt-run":
+            r = sh([fl.nano_virt, "p.nano", "--run"], cwd=d, env={"NLVERIF_FUEL": "20000000"}, cpu=20, wall=400)
+        else:
+            r = sh([fl.nano_virt, "p.nano", "--emit-nvm", "-o", "t.nvm"], cwd=d, cpu=20, wall=400)
+        if not (r.timeout or r.cpu_exceeded):
+            break
+    o = Obs()
+    o.tool = tool
+    o.rc, o.sig = r.rc, r.sig
+    o.out, o.err = r.text(), r.errtext()
+    o.artifact = bool(art) and os.path.exists(os.path.join(d, art))
+    o.marker = MARKER in o.out
+    text = o.err + ("\n" + o.out if tool != "virt-run" else "")
+    o.diag = own_diag_lines(text)
+    o.ccdiag = bool(re.search(r"\berror\b", "\n".join(l for l in o.err.splitlines() if GCC_LINE.match(l)))) or "C compilation failed" in o.err
+    o.stage = stage_of(tool, o.err + o.out)
+    if r.timeout or r.cpu_exceeded:
+        o.cls = "inconclusive"
+    elif o.artifact or o.marker or r.status == 0:
+        o.cls = "diagnosed-but-built" if o.diag else "silently-built"
+        o.stage = "accepted"
+    elif r.sig:
+        o.cls = "crashed-after-diagnostic" if o.diag else "crashed-without-diagnostic"
+    elif tool == "nanoc" and o.stage == "cc":
+        o.cls = "diagnosed-rejected-by-cc" if o.diag else "rejected-late-by-cc"
+    elif o.diag:
+        o.cls = "rejected"
+    else:
+        o.cls = "rejected-without-diagnostic"
+    return o
+
+
+def write_files(d, files):
+    os.makedirs(d, exist_ok=True)
+    for fn, text in files.items():
+        with open(os.path.join(d, fn), "w") as f:
+            f.write(text)
+
+
+class Mutant:
+    """one site: (rule, context) instantiated at (base, place) with one catalogue variant"""
+    __slots__ = ("rule", "context", "base", "mut", "variant", "where", "line", "obs", "n")
+
+
+def mutated_line(base, mut):
+    """the line(s) of the mutant that differ from the base (for reports)"""
+    a = base.render().split("\n")
+    b = base.render(mut).split("\n")
+    i = 0
+    while i < min(len(a), len(b)) and a[i] == b[i]:
+        i += 1
+    j = 0
+    while j < min(len(a), len(b)) - i and a[-1 - j] == b[-1 - j]:
+        j += 1
+    new = b[i:len(b) - j]
+    old = a[i:len(a) - j]
+    return i + 1, [x.strip() for x in new], [x.strip() for x in old]
+
+
+# =========================================================================================================
+#  the cell table
+# =========================================================================================================
+def build_cells(bases, nsites, rng_for):
+    """-> (cells {(rule, context): [Mutant]}, table description).  Sites are spread over bases and places first,
+    over catalogue variants second."""
+    cells = {}
+    n_candidates = {}
+
+    def pick(rule, context, cands):
+        # cands: [(base, place_key, where, [(variant, mut)])]
+        r = rng_for(rule, context)
+        cands = [c for c in cands if c[3]]
+        n_candidates[(rule, context)] = sum(len(c[3]) for c in cands)
+        if not cands:
+            return
+        r.shuffle(cands)
+        # interleave bases so that the first sites come from different base programs
+        by_base = {}
+        for c in cands:
+            by_base.setdefault(c[0].name, []).append(c)
+        order = []
+        names = sorted(by_base)
+        r.shuffle(names)
+        while any(by_base.values()):
+            for nm in names:
+                if by_base[nm]:
+                    order.append(by_base[nm].pop())
+        chosen = []
+        used = set()
+        rounds = 0
+        while len(chosen) < nsites and rounds < 6:
+            for base, pk, where, vs in order:
+                avail = [v for v in vs if (base.name, pk, v[0]) not in used]
+                if not avail:
+                    continue
+                # prefer variants not yet used anywhere in this cell
+                fresh = [v for v in avail if v[0] not in {u[2] for u in used}] or avail
+                v = r.choice(fresh)
+                used.add((base.name, pk, v[0]))
+                m = Mutant()
+                m.rule, m.context, m.base, m.mut, m.variant, m.where = rule, context, base, v[1], v[0], where
+                m.obs = None
+                chosen.append(m)
+                if len(chosen) >= nsites:
+                    break
+            rounds += 1
+        cells[(rule, context)] = chosen
+
+    for rule, fn in EXPR_RULES:
+        for context in EXPR_CONTEXTS:
+            cands = []
+            for b in bases:
+                if context == "expr-stmt":
+                    vs0 = expr_variants(rule, fn, context, None, None)
+                    for pt in b.points:
+                        cands.append((b, "p%d" % pt.idx, "stmt point %d (%s)" % (pt.idx, pt.blockctx),
+                                      [(vn, ("stmt", pt.idx, list(pre) + [e])) for vn, pre, e in vs0]))
+                else:
+                    for h in b.holes:
+                        if h.ctx != context:
+                            continue
+                        vs = expr_variants(rule, fn, context, h.T, h.default)
+                        cands.append((b, "h%d" % h.idx, "hole %d (%s:%s)" % (h.idx, h.ctx, h.T),
+                                      [(vn, ("hole", h.idx, list(pre), e)) for vn, pre, e in vs]))
+            pick(rule, context, cands)
+    for rule in STMT_RULES:
+        for context in STMT_CONTEXTS:
+            cands = []
+            for b in bases:
+                for pt in b.points:
+                    if pt.blockctx == context:
+                        cands.append((b, "p%d" % pt.idx, "stmt point %d (%s)" % (pt.idx, pt.blockctx),
+                                      [(vn, ("stmt", pt.idx, lines)) for vn, lines in stmt_variants(rule, pt)]))
+            pick(rule, context, cands)
+    for shape in RET_SHAPES:
+        cands = []
+        for b in bases:
+            for rl in b.rets:
+                if rl.shape == shape:
+                    cands.append((b, "r%d" % rl.idx, "return line %d" % rl.idx, [("delete the return", ("ret", rl.idx))]))
+        pick("missing-return", shape, cands)
+    return cells, n_candidates
+
+
+def control_mutants(bases):
+    """programs that must be ACCEPTED: every base unmutated, and the statements that catalogue entries bring along
+    (`pre`) without the offending expression."""
+    out = []
+    for b in bases:
+        out.append(("base:" + b.name, b, None))
+    hb = [b for b in bases if b.kind == "hand" and b.points]
+    pres = {}
+    for rule, fn in EXPR_RULES:
+        for T in ("int", "bool", "string", "float", "P", "void", "Color", "Sh"):
+            for vn, pre, e in fn(T, None):
+                if pre:
+                    pres.setdefault(tuple(pre), "%s/%s" % (rule, vn))
+    k = 0
+    for pre, name in sorted(pres.items(), key=lambda kv: kv[1]):
+        b = hb[k % len(hb)]
+        pt = b.points[k % len(b.points)]
+        out.append(("pre:" + name, b, ("stmt", pt.idx, list(pre))))
+        k += 1
+    for name, lines in STMT_CONTROLS:
+        b = hb[k % len(hb)]
+        pt = b.points[k % len(b.points)]
+        out.append(("stmt:" + name, b, ("stmt", pt.idx, lines)))
+        k += 1
+    return out
+
+
+# =========================================================================================================
+#  the check
+# =========================================================================================================
+def make_bases(ctx):
+    bases = [Base(n, t) for n, t in HAND_BASES]
+    bases.append(Base("b6", returns_base(False)))
+    if not ctx.quick():
+        bases.append(Base("b7", returns_base(True)))
+        from .. import sweep
+        want = 24
+        batch = sweep.gen_batch(ctx, want, None, 1.0, label="c05base")
+        for i, prog, exp in batch:
+            text, extra, nholes = gen_template(prog)
+            if nholes >= 10:
+                bases.append(Base("g%02d" % i, text, extra_files=extra, kind="gen"))
+    return bases
+
+
+def run(ctx):
+    fl = build.get("plain")
+    nsites = ctx.n(3, 10)
+    bases = make_bases(ctx)
+    with Scratch("c05") as sc:
+        # ---- controls: everything the mutants are derived from is accepted, built and run --------------------
+        def do_control(item):
+            i, (name, b, mut) = item
+            d = sc.sub("ctl/%03d" % i)
+            write_files(d, b.files(mut))
+            obs = [run_tool(fl, t, d) for t in TOOLS]
+            native = None
+            if obs[0].artifact:
+                native = sh([os.path.join(d, "t.bin")], cwd=d, cpu=20)
+            return name, b, mut, obs, native
+
+        ctl = control_mutants(bases)
+        good_bases = []
+        dropped = []
+        n_ctl = 0
+        for name, b, mut, obs, native in pmap(do_control, list(enumerate(ctl))):
+            ok = (all(o.cls in ("silently-built",) and o.rc == 0 and not o.sig for o in obs) and obs[0].artifact and obs[2].artifact
+                  and obs[1].marker and native is not None and MARKER in native.text())
+            n_ctl += 1
+            if ok:
+                if mut is None:
+                    good_bases.append(b)
+                continue
+            why = "; ".join("%s: %s rc=%s %s" % (o.tool, o.cls, o.rc, (o.diag or [""])[0][:100]) for o in obs)
+            if b.kind == "gen" and mut is None:
+                dropped.append(b.name + " (" + why[:160] + ")")     # a generated program outside the engines' clean zone
+                continue
+            raise Inconclusive("control program '%s' is not accepted by all three tools (%s): the catalogue or a base "
+                               "program is wrong" % (name, why))
+        bases = good_bases
+        if dropped:
+            ctx.note("generated bases not accepted unmutated (dropped): " + ", ".join(dropped)[:600])
+
+        # ---- the table ---------------------------------------------------------------------------------------
+        cells, ncand = build_cells(bases, nsites, lambda *a: ctx.rng("cell", *a))
+        mutants = [m for k in sorted(cells) for m in cells[k]]
+        for i, m in enumerate(mutants):
+            m.n = i
+
+        def do_mutant(m):
+            d = sc.sub("m/%05d" % m.n)
+            write_files(d, m.base.files(m.mut))
+            m.obs = [run_tool(fl, t, d) for t in TOOLS]
+            # evidence only: did nanoc run the shadow tests (compile-time execution) of a program it later rejected?
+            return m
+
+        pmap(do_mutant, mutants)
+
+        # ---- verdicts ----------------------------------------------------------------------------------------
+        table = {}           # rule -> context -> "nanoc virt-run virt-emit" letters
+        class_hist = {t: {} for t in TOOLS}
+        stage_hist = {t: {} for t in TOOLS}
+        cell_hist = {"all-sites-rejected": 0, "some-site-not-rejected": 0}
+        executed_cells = set()
+        n_runs = 0
+        n_inconcl = 0
+        parse_errors = []
+        samples = []
+        diag_samples = {}
+        for (rule, context), ms in sorted(cells.items()):
+            row = []
+            for ti, tool in enumerate(TOOLS):
+                classes = {}
+                for m in ms:
+                    o = m.obs[ti]
+                    n_runs += 1
+                    if o.cls == "inconclusive":
+                        n_inconcl += 1
+                        continue
+                    if o.stage in ("parse", "lex"):
+                        parse_errors.append((rule, context, m.variant, m.base.name))
+                    classes.setdefault(o.cls, []).append(m)
+                    class_hist[tool][o.cls] = class_hist[tool].get(o.cls, 0) + 1
+                    stage_hist[tool][o.stage] = stage_hist[tool].get(o.stage, 0) + 1
+                if classes:
+                    executed_cells.add((rule, context, tool))
+                    cell_hist["all-sites-rejected" if all(c in GOOD for c in classes) else "some-site-not-rejected"] += 1
+                row.append("/".join(sorted(LETTER[c] for c in classes)) or "?")
+                for cls, cms in sorted(classes.items()):
+                    if cls not in BAD and cls != "crashed-after-diagnostic":
+                        continue
+                    if cls == "crashed-after-diagnostic":
+                        continue
+                    m = cms[0]
+                    o = m.obs[ti]
+                    ln, new, old = mutated_line(m.base, m.mut)
+                    key = "cell|%s|%s|%s|%s" % (rule, context, tool, cls)
+                    what = ("rule '%s' violated in context '%s': `%s` %s (exit %s%s%s%s) at %d of %d sites; e.g. base %s line %d: `%s`%s%s" % (
+                        rule, context, CMD[tool], cls, o.rc if not o.sig else "signal %d" % o.sig,
+                        ", output file written" if o.artifact else "", ", program output on stdout" if o.marker else "",
+                        ", diagnostic: " + o.diag[0][:90] if o.diag else ", no diagnostic",
+                        len(cms), len(ms), m.base.name, ln, " // ".join(new)[:160],
+                        " (was `%s`)" % " // ".join(old)[:100] if old else " (inserted)" if new else " (line `%s` deleted)" % "",
+                        "" if new else " deleted: `%s`" % " // ".join(old)[:100]))
+                    files = dict(("prog/" + k, v) for k, v in m.base.files(m.mut).items())
+                    files.update({"cmd.txt": "cd prog && " + CMD[tool] + "\n# variant: %s; %s\n" % (m.variant, m.where),
+                                  "stdout.txt": o.out[-4000:], "stderr.txt": o.err[-6000:]})
+                    ctx.violation(key, what, files)
+            table.setdefault(rule, {})[context] = " ".join(row)
+            # samples of what the diagnostics say (to audit that rejections happen for the stated rule)
+            for m in ms[:1]:
+                o = m.obs[1]
+                ln, new, old = mutated_line(m.base, m.mut)
+                if rule not in diag_samples:
+                    diag_samples[rule] = {"context": context, "mutant": " // ".join(new)[:140] or "deleted: " + " // ".join(old)[:100],
+                                          "virt-run": o.cls, "diagnostic": (o.diag or ["-"])[0][:140]}
+                if len(samples) < 12 and (len(samples) % 2 == 0) == (o.cls in GOOD):
+                    samples.append({"cell": "%s|%s" % (rule, context), "base": m.base.name, "line": ln, "mutant": " // ".join(new)[:160],
+                                    "outcomes": {t: m.obs[i].cls for i, t in enumerate(TOOLS)}})
+
+        if os.environ.get("NLV_C05_DUMP"):
+            import json
+            with open(os.environ["NLV_C05_DUMP"], "w") as f:
+                for m in mutants:
+                    ln, new, old = mutated_line(m.base, m.mut)
+                    json.dump({"rule": m.rule, "context": m.context, "base": m.base.name, "variant": m.variant, "where": m.where,
+                               "line": ln, "new": new, "old": old,
+                               "obs": [{"tool": o.tool, "cls": o.cls, "stage": o.stage, "rc": o.rc, "sig": o.sig, "art": o.artifact,
+                                        "marker": o.marker, "diag": o.diag[:3], "err": o.err[-600:]} for o in m.obs]}, f)
+                    f.write("\n")
+        ctx.require(not parse_errors, "catalogue entries that do not parse (a mutant must be ill-formed by a static rule, "
+                    "not syntactically): %s" % parse_errors[:5])
+        ctx.require(n_inconcl <= 0.02 * max(1, n_runs), "%d of %d runs hit the watchdog" % (n_inconcl, n_runs))
+        n_cells_expected = 3 * len([k for k, v in cells.items() if v])
+        if not ctx.violations:
+            ctx.require(len(executed_cells) == n_cells_expected, "only %d of %d cells have a conclusive site" % (len(executed_cells), n_cells_expected))
+            ctx.require(len(executed_cells) >= 600, "cell table too small: %d" % len(executed_cells))
+        short = sorted(k for k, v in cells.items() if 0 < len(v) < nsites)
+
+        coverage = {
+            "evaluations": n_runs,
+            "distinct_nontrivial": len(executed_cells),
+            "rule": "distinct (rule, context, tool) cells with >= 1 conclusive site (a site = one catalogue variant placed at one "
+                    "slot of one base program; all sites of a cell differ in base/slot/variant by construction)",
+            "exhaustive": True,
+            "exhaustive_over": "the cell table: every (rule, context) pair for which the bases offer a type-correct slot, x 3 tools",
+            "rules": len({r for r, c in cells if cells[(r, c)]}),
+            "contexts": len({c for r, c in cells if cells[(r, c)]}),
+            "rule_context_pairs": len([k for k, v in cells.items() if v]),
+            "cells": len(executed_cells),
+            "sites_per_cell": nsites,
+            "cells_with_fewer_sites": {"%s|%s" % k: len(cells[k]) for k in short},
+            "mutants": len(mutants),
+            "bases": {"hand": [b.name for b in bases if b.kind == "hand"], "generated": len([b for b in bases if b.kind == "gen"])},
+            "controls_accepted": n_ctl - len(dropped),
+            "class_histogram": class_hist,
+            "stage_histogram": stage_hist,
+            "cell_histogram": cell_hist,
+            "legend": "per cell: outcome letters for nanoc, nano_virt --run, nano_virt --emit-nvm. " + ", ".join(
+                "%s=%s" % (v, k) for k, v in LETTER.items()),
+            "cell_table": table,
+            "diagnostic_samples": diag_samples,
+            "samples": samples,
+            "inconclusive_runs": n_inconcl,
+        }
+        assumptions = [
+            "A mutant is ill-formed by construction: each catalogue entry is a fixed expression/statement whose rule violation does "
+            "not depend on where it is put (mixed-type operands only: int/string, int/bool, float/int; never same-type pairs such as "
+            "string+string or string<string, never int where an enum is expected).",
+            "Reading of 'reports a diagnostic': any error text shown to the user counts, including the C compiler's error text that "
+            "nanoc passes through followed by 'C compilation failed' (class rejected-late-by-cc: exit non-zero, no file, no diagnostic "
+            "of nanoc's own).  Such cells are NOT counted as violations; they are listed in the table (letter C, or c when nanoc also "
+            "printed its own diagnostic but continued to the C compiler).  A rejection with no text at all would be a violation.",
+            "'executes nothing' is observed through the marker that main prints first (nano_virt --run) and the -o file; nanoc's "
+            "compile-time execution of shadow tests prints nothing without --verbose and is not counted.",
+            "`(println (vd 1))` (void result used as a value) is taken as ill-formed: SPEC 3.1 'void: absence of value (return only)'; "
+            "the native binary prints '<unknown>' and the VM prints 'void' for it.",
+            "extern-outside-unsafe follows the property text / spec.json ('Must be called inside unsafe { } blocks') although "
+            "SPECIFICATION.md 6.4 shows extern calls without unsafe.",
+        ]
+        return ctx.finish(coverage, assumptions)
